@@ -11,9 +11,23 @@ fn session(seed: u64, m: Option<u32>, r: Option<u16>) -> Sim {
 
 /// `own_limit`: the client's own Maximum Packet Size sent in CONNECT (limits what the *server* may send; must not limit the client)
 fn session_with(seed: u64, m: Option<u32>, r: Option<u16>, own_limit: Option<u32>) -> Sim {
+    session_via(seed, m, r, own_limit, false)
+}
+
+/// `via_auth`: the CONNACK arrives at the end of an extended authentication exchange (inside authorize(), not connect())
+fn session_via(seed: u64, m: Option<u32>, r: Option<u16>, own_limit: Option<u32>, via_auth: bool) -> Sim {
     let mut sim = Sim::new(seed);
-    sim.cmd(Cmd::Connect(ConnSpec { max_packet_size: own_limit, ..Default::default() }));
-    sim.settle();
+    if via_auth {
+        sim.cmd(Cmd::Connect(ConnSpec { max_packet_size: own_limit, auth_method: Some("m".into()), auth_data: Some(vec![1]), ..Default::default() }));
+        sim.settle();
+        sim.feed_packet(&SPacket::Auth { reason: Some(0x18), props: vec![Prop::str(21, "m"), Prop::bin(22, b"c")] });
+        sim.settle();
+        sim.cmd(Cmd::Authorize(AuthSpec { reason: Some(0x18), method: Some("m".into()), data: Some(vec![2]), user_props: vec![] }));
+        sim.settle();
+    } else {
+        sim.cmd(Cmd::Connect(ConnSpec { max_packet_size: own_limit, ..Default::default() }));
+        sim.settle();
+    }
     let mut props = Vec::new();
     if let Some(m) = m {
         props.push(Prop::u32(39, m));
@@ -64,7 +78,7 @@ fn viol(rep: &mut Rep, sig: String, case: &str, detail: String, sim: &Sim) {
 
 pub fn run(rep: &mut Rep) {
     let reqs = requests(rep);
-    rep.note(&format!("{} requests (publish QoS 0/1/2, subscribe, unsubscribe, ping, disconnect; encoded length L from 2 to ~70 000, every L around 127/128 and 16383/16384) x M in {{L-1, L, L+1, 1, 2^32-1, absent}} x Receive Maximum {{1, 2}} x the client's own CONNECT Maximum Packet Size {{absent, 16, L/2, L-1}} (irrelevant for outgoing packets); L measured by running the identical request on a twin session without a limit", reqs.len()));
+    rep.note(&format!("{} requests (publish QoS 0/1/2, subscribe, unsubscribe, ping, disconnect; encoded length L from 2 to ~70 000, every L around 127/128 and 16383/16384) x M in {{L-1, L, L+1, 1, 2^32-1, absent}} x Receive Maximum {{1, 2}} x the client's own CONNECT Maximum Packet Size {{absent, 16, L/2, L-1}} (irrelevant for outgoing packets) x CONNACK received by connect() or, every third case, by authorize() at the end of an AUTH exchange; L measured by running the identical request on a twin session without a limit", reqs.len()));
     let mut idx = 0u64;
     for (name, spec) in &reqs {
         // twin run: measure L and learn which packet identifier the request uses
@@ -109,7 +123,12 @@ pub fn run(rep: &mut Rep) {
                     2 => Some((l / 2).max(1)),
                     _ => Some(l.saturating_sub(1).max(1)),
                 };
-                let mut sim = session_with(rep.seed, m, Some(r), own_limit);
+                // every third case reaches its CONNACK through an extended authentication exchange
+                let via_auth = idx % 3 == 0;
+                if via_auth {
+                    rep.add("sessions_established_through_authorize", 1);
+                }
+                let mut sim = session_via(rep.seed, m, Some(r), own_limit, via_auth);
                 // a message is processed first so that a "before" snapshot exists
                 let warm = sim.start_op(0, OpSpec::Publish(PubSpec::simple(0, "w", b"")));
                 sim.settle();
